@@ -503,7 +503,9 @@ fn check_group(rep: &mut Reporter, g: &Group) {
         let mut first_final: Option<(usize, BTreeMap<usize, u8>, BTreeSet<usize>)> = None;
         for (pi, plan) in g.plans.iter().enumerate() {
             let case = || case_json(g, &[plan]);
+            let t0 = std::time::Instant::now();
             let (init, steps) = runner(g.states, plan);
+            rep.count_n(&format!("ns:{iname}"), t0.elapsed().as_nanos() as u64);
             rep.count(&format!("plans:{iname}"));
             // freshly constructed replicas must show exactly what was put in
             let mut ok = true;
